@@ -167,6 +167,8 @@ def run(R):
         R.check(d == want, "C01.CONTEXT-ORDER", m.qualname, R.site(m, loops[0]), "%s hooks run %s" % (hook, want),
                 "%s hooks run %s: nested overrides of one task restore in the wrong order and a sibling reads a leaked value" % (hook, d))
     common.blocked_all(R, ro, "C01.BLOCKED-ALL")
+    common.unwrap_capture(R, ro, "C01.CAPTURE-ALL")
+    common.wait_for_exits(R, ro, "C01.WAIT-FOR")
     # ---- BUILD
     build_rules(R, ro)
     if R.tier == "thorough":
